@@ -229,6 +229,55 @@ def hand_class_tests(x: fp.Real, y: fp.Real, xs: list[fp.Real], k: fp.Real):
         if fp.isfinite(y) and not x == 0:
             f = y * x
     return a, b, c, d, e, f''',
+    'hand_purity_callees': '''@fp.fpy
+def hand_pc_alias(zs: list[fp.Real]) -> fp.Real:
+    ys = zs
+    if len(ys) > 0:
+        ys[0] = 7
+    return 0
+
+@fp.fpy
+def hand_pc_loop(zs: list[fp.Real]) -> fp.Real:
+    for i in range(len(zs)):
+        zs[i] = 0
+    return 0
+
+@fp.fpy
+def hand_pc_row(zs: list[fp.Real], a: fp.Real) -> fp.Real:
+    m = [zs, [a, a]]
+    r = m[0]
+    if len(r) > 1:
+        r[1] = 1
+    t = (zs, 3)
+    p, q = t
+    if len(p) > 0:
+        p[0] = 2
+    return 0
+
+@fp.fpy
+def hand_pc_local(zs: list[fp.Real], a: fp.Real) -> fp.Real:
+    us = [a, a]
+    vs = us
+    vs[0] = 1
+    ws = zs[0:len(zs)]
+    if len(ws) > 0:
+        ws[0] = 5
+    return us[0]
+
+@fp.fpy
+def hand_purity_callees(x: fp.Real, y: fp.Real, xs: list[fp.Real], k: fp.Real):
+    a = [x, y, 1]
+    t1 = hand_pc_alias(a)
+    b = [y, x]
+    t2 = hand_pc_loop(b)
+    c = [x, x, y]
+    t3 = hand_pc_row(c, y)
+    d = [y, y]
+    t4 = hand_pc_local(d, x)
+    e = [x]
+    if hand_pc_loop(e) > 0:
+        t4 = 1
+    return (a, b, c, d, e)''',
     'hand_with_dynamic_const': '''@fp.fpy(ctx=fp.FP64)
 def hand_with_dynamic_const(x: fp.Real, y: fp.Real, xs: list[fp.Real], k: fp.Real):
     with fp.IEEEContext(5, k + 9):
@@ -513,7 +562,7 @@ def record_traces(job):
                 if r is None:
                     stats['run-too-long'] += 1
                     continue
-                runs.append({'prog': len(progs), 'ev': r['ev'], 'ret': r['ret'], 'exc': r['exc'], 'args': repr(args)[:300], 'ctx': str(ctx)[:80]})
+                runs.append({'prog': len(progs), 'ev': r['ev'], 'ret': r['ret'], 'exc': r['exc'], 'mut': r['mut'], 'args': repr(args)[:300], 'ctx': str(ctx)[:80]})
                 nrun += 1
             stats['facts_attached_traced'] += si['nfacts']
             progs.append(si)
@@ -572,7 +621,7 @@ def run(tier: str) -> int:
             r_['tid'] = len(truns)
             truns.append(r_)
     if truns:
-        tout = linetrace.validate([{k: r_[k] for k in ('tid', 'pid', 'ev', 'ret', 'exc')} for r_ in truns], tprogs)
+        tout = linetrace.validate([{k: r_[k] for k in ('tid', 'pid', 'ev', 'ret', 'exc', 'mut')} for r_ in truns], tprogs)
         rep.add_tlc(tout.generated, tout.distinct)
         for (tid, clause, what) in tout.mismatches:
             r_ = truns[tid]
